@@ -226,11 +226,12 @@ def run(ctx):
             ctx.ob(R2, newpool.qual, "SSL keywords stripped only for scheme http", ok, astq.text(g.test) if g is not None else "unguarded", node=n)
 
     # connection_from_host: context = merge(pool_kwargs) + scheme/host/port of this call
-    rcvs = [v for v in astq.assigned_values(cfh.node, "request_context")]
+    rcn = (astq.assigned_from(cfh.node, lambda v: isinstance(v, ast.Call) and astq.call_text(v) == "self._merge_pool_kwargs") or ["request_context"])[0]
+    rcvs = [v for v in astq.assigned_values(cfh.node, rcn)]
     ok = len(rcvs) == 1 and isinstance(rcvs[0], ast.Call) and astq.call_text(rcvs[0]) == "self._merge_pool_kwargs"
     ctx.ob(R2, cfh.qual, "request context starts from the merged defaults", ok, "; ".join(astq.text(v) for v in rcvs))
     stores = {}
-    for kind, key, val, n in _dict_mutations(cfh.node, "request_context"):
+    for kind, key, val, n in _dict_mutations(cfh.node, rcn):
         if kind == "store" and isinstance(key, ast.Constant):
             stores[key.value] = val
         else:
@@ -244,7 +245,7 @@ def run(ctx):
         ok = v is not None and nm in names
         ctx.ob(R2, cfh.qual, f"context[{nm!r}] derives from the {nm} argument", ok, "; ".join(astq.text(s) for s in srcs))
     rets = [r.value for r in astq.walk_fn(cfh.node) if isinstance(r, ast.Return) and r.value is not None]
-    ok = all(isinstance(r, ast.Call) and astq.call_text(r) == "self.connection_from_context" and astq.text(r.args[0]) == "request_context" for r in rets) and rets
+    ok = all(isinstance(r, ast.Call) and astq.call_text(r) == "self.connection_from_context" and astq.text(r.args[0]) == rcn for r in rets) and rets
     ctx.ob(R2, cfh.qual, "the merged context is the one that is keyed", bool(ok), "; ".join(astq.text(r) for r in rets))
 
     # ---------------------------------------------------------------- R3
